@@ -51,7 +51,7 @@ const s2Rule = "cases = hand-written regression witnesses + PRNG-generated histo
 func init() {
 	two := []string{"t1", "t2"}
 	three := []string{"t1", "t2", "t3"}
-	s2Check("C01", "exploration", "runtime monitoring: PRNG histories on the real controllers, end state vs sequential transaction model + per-transaction merge-pattern monitor over the event log",
+	s2Check("C01", "exploration", "runtime monitoring: PRNG histories (multi-target, SERIALIZABLE and default isolation, poisoned subsets) on the real controllers under schedule perturbation, transient store faults and process kills (before decorated effects and between individual Atomix writes); end state vs sequential transaction model + per-transaction merge-pattern monitor over the event log",
 		s2Rule, 150, 6000, map[string]int64{"multi_target_transactions": 200, "multi_target_aborted": 30, "executions_reaching_final_state": 100, "executions_with_a_process_kill": 15},
 		func(c *fw.Case) *engine.Profile {
 			p := &engine.Profile{Targets: two, MinOps: 4, MaxOps: 9, PMulti: 80, PPoison: 25, PEq: 15, PDevReject: 5, PDelete: 25, PRollback: 8, PEnv: 10, PNoWait: 40, PSync: 20, PStartOffline: 15, PDevFault: 5, PSerializable: 25, Paths: "rich"}
@@ -73,7 +73,7 @@ func init() {
 			}
 			return p
 		})
-	s2Check("C02", "exploration", "runtime monitoring: online order monitor over decorated store / device calls (merge order, push order, push-after-merge, index monotonicity)",
+	s2Check("C02", "exploration", "runtime monitoring: online order monitor over decorated store / device calls (merge order, push order, push-after-merge, push after every earlier merged index was answered by the device, index monotonicity) on histories of overlapping transactions with store faults, delayed watch deliveries and process kills",
 		s2Rule, 150, 6000, map[string]int64{"overlapping_proposal_pairs": 200, "proposal_pushes_observed": 300, "merges_observed": 300, "executions_with_a_process_kill": 15},
 		func(c *fw.Case) *engine.Profile {
 			p := &engine.Profile{Targets: two, MinOps: 5, MaxOps: 12, PMulti: 30, PPoison: 10, PEq: 5, PDevReject: 8, PDelete: 25, PRollback: 8, PEnv: 20, PNoWait: 85, PSync: 10, PStartOffline: 35, PDevFault: 15, PSerializable: 25, Paths: "rich"}
@@ -122,7 +122,7 @@ func init() {
 			}
 			return p
 		})
-	s2Check("C10", "fault_enumeration", "runtime monitoring: online mastership monitor (terms, master changes, election id and connection of every device request against the configuration version its task read, re-sync gate)",
+	s2Check("C10", "fault_enumeration", "runtime monitoring: online mastership monitor over histories dominated by connection loss / replacement / device restarts, relations of another onos-config node and process kills: terms, master changes, every election against the environment's connections and relations, election id and connection of every device request against the configuration version its task read, one connection per term, re-sync gate, re-sync content vs the applied values read, connection requests of the target controller",
 		s2Rule, 150, 6000, map[string]int64{"mastership_changes": 300, "device_requests_checked": 500, "elections_checked": 300, "executions_reaching_final_state": 100},
 		func(c *fw.Case) *engine.Profile {
 			p := &engine.Profile{Targets: two, MinOps: 4, MaxOps: 9, PMulti: 25, PPoison: 8, PEq: 3, PDevReject: 5, PDelete: 25, PRollback: 8, PEnv: 85, PNoWait: 50, PSync: 10, PStartOffline: 40, PDevFault: 10, PSerializable: 25, Paths: "basic"}
